@@ -3,6 +3,7 @@ package c11
 
 import (
 	"fmt"
+	"math"
 	"time"
 
 	"github.com/paulmach/orb"
@@ -19,13 +20,15 @@ func init() {
 		Level: "exploration",
 		Rule: "a case is one seeded operation history on an initially empty quadtree (engine 'history': 1-400 operations, swarm-drawn " +
 			"operation mix, alphabet size 2-64, dyadic coordinates biased to midlines and the bound; engine 'tiny': mutation histories of " +
-			"length <= 6 over a 5-point alphabet with a full query sweep after every step). Distinct = distinct event-log digest; " +
+			"length <= 6 over a 5-point alphabet with a full query sweep after every step; engine 'floaty': arbitrary float64 bounds and points, including points placed exactly on " +
+			"cell midlines computed both as (lo+hi)/2 and lo+(hi-lo)/2, pointers stored as non-comparable value types, checked only with oracles that need no arithmetic). Distinct = distinct event-log digest; " +
 			"non-trivial = at least 3 operations completed.",
 		StateDef: "engine tiny: distinct mutation-history prefixes of length <= 6 over the 12-symbol alphabet (out of 3257437); " +
 			"engine history: distinct (multiset of live points, last operation kind) signatures",
 		Engines: []props.Engine{
-			{Name: "history", Variant: "plain", Run: RunHistory, QuickRuns: 150000, Share: 0.6, MinThorough: 200000, RunTimeout: 60 * time.Second},
-			{Name: "tiny", Variant: "plain", Run: RunTiny, QuickRuns: 400000, Share: 0.4, MinThorough: 400000, RunTimeout: 60 * time.Second},
+			{Name: "history", Variant: "plain", Run: RunHistory, QuickRuns: 150000, Share: 0.5, MinThorough: 200000, RunTimeout: 60 * time.Second},
+			{Name: "floaty", Variant: "plain", Run: RunFloaty, QuickRuns: 60000, Share: 0.15, MinThorough: 300000, RunTimeout: 60 * time.Second},
+			{Name: "tiny", Variant: "plain", Run: RunTiny, QuickRuns: 400000, Share: 0.35, MinThorough: 400000, RunTimeout: 60 * time.Second},
 		},
 		Real:        []string{"quadtree", "planar", "orb (Bound, Point)"},
 		Stub:        []string{},
@@ -402,4 +405,247 @@ func (r *run) sweep() {
 			return
 		}
 	}
+}
+
+// ---------------------------------------------------------------- floaty engine
+
+// valPt is a pointer implementation that is a non-comparable VALUE type (it
+// holds a slice): the tree must never compare stored values with ==.
+type valPt struct {
+	ID   int
+	P    orb.Point
+	Tags []string
+}
+
+func (v valPt) Point() orb.Point { return v.P }
+
+// RunFloaty: arbitrary (non-dyadic) float64 bounds and coordinates. Distances
+// are not exact here, so only oracles that need no arithmetic are used: what
+// Add/Remove report, the contents as a multiset, bound searches (pure
+// comparisons), and that nearest searches return stored, accepted, distinct
+// pointers in the right number.
+func RunFloaty(t *core.T) {
+	s := t.Src
+	fl := func(label string) float64 {
+		switch s.Pick([]int{3, 2, 1}, label+"kind") {
+		case 0:
+			return float64(s.Range(-200, 200, label)) / 10 // decimal tenths: not dyadic
+		case 1:
+			return float64(s.Range(-1800, 1800, label)) / 7
+		default:
+			return math.Float64frombits(0x3ff0000000000000|s.Bits(label+"bits")>>12) * 3 // random mantissa
+		}
+	}
+	x0, y0 := fl("x0"), fl("y0")
+	b := orb.Bound{Min: orb.Point{x0, y0}, Max: orb.Point{x0 + 0.1 + math.Abs(fl("w")), y0 + 0.1 + math.Abs(fl("h"))}}
+	tr := quadtree.New(b)
+	t.Logf("bound %v..%v", b.Min, b.Max)
+	// coordinate alphabet: edges, midlines of the first levels by both formulas, their float neighbours, and free values
+	axis := func(lo, hi float64) []float64 {
+		vals := []float64{lo, hi}
+		type cell struct{ lo, hi float64 }
+		cells := []cell{{lo, hi}}
+		for d := 0; d < 3; d++ {
+			var next []cell
+			for _, c := range cells {
+				m1, m2 := (c.lo+c.hi)/2, c.lo+(c.hi-c.lo)/2
+				vals = append(vals, m1, m2, math.Nextafter(m1, c.hi), math.Nextafter(m1, c.lo))
+				next = append(next, cell{c.lo, m1}, cell{m1, c.hi})
+			}
+			cells = next
+		}
+		return vals
+	}
+	xs, ys := axis(b.Min[0], b.Max[0]), axis(b.Min[1], b.Max[1])
+	coord := func(vals []float64, lo, hi float64, label string) float64 {
+		if s.Chance(2, 3, label+"grid") {
+			return vals[s.Intn(len(vals), label)]
+		}
+		return lo + (hi-lo)*float64(s.Intn(1<<20, label))/(1<<20)
+	}
+	useVal := s.Chance(1, 5, "value-pointers")
+	type ent struct {
+		p  orb.Pointer
+		pt orb.Point
+		id int
+	}
+	var live []ent
+	id := 0
+	inBox := func(p orb.Point, q orb.Bound) bool {
+		return p[0] >= q.Min[0] && p[0] <= q.Max[0] && p[1] >= q.Min[1] && p[1] <= q.Max[1]
+	}
+	idOf := func(p orb.Pointer) int {
+		switch x := p.(type) {
+		case *qt.Pt:
+			return x.ID
+		case valPt:
+			return x.ID
+		}
+		return -1
+	}
+	checkContents := func(after string) bool {
+		var got []orb.Pointer
+		all := orb.Bound{Min: orb.Point{b.Min[0] - 1, b.Min[1] - 1}, Max: orb.Point{b.Max[0] + 1, b.Max[1] + 1}}
+		if t.Guard("InBound(all)", func() { got = tr.InBound(nil, all) }) {
+			return false
+		}
+		want := map[int]int{}
+		for _, e := range live {
+			want[e.id]++
+		}
+		for _, p := range got {
+			want[idOf(p)]--
+		}
+		for _, e := range live {
+			if want[e.id] != 0 {
+				t.Violate("contents", after, "", "after %s on bound %v: the tree reports %d pointers, %d were stored; pointer #%d at %v is off by %d", after, b, len(got), len(live), e.id, e.pt, want[e.id])
+				return false
+			}
+		}
+		if len(got) != len(live) {
+			t.Violate("contents", after, "", "after %s: the tree reports %d pointers, %d were stored", after, len(got), len(live))
+			return false
+		}
+		return true
+	}
+	s.Repeat(1, 30, 80, "fop", func(int) {
+		if t.Failed() {
+			return
+		}
+		switch s.Pick([]int{5, 2, 3, 2, 1}, "fkind") {
+		case 0: // add
+			pt := orb.Point{coord(xs, b.Min[0], b.Max[0], "ax"), coord(ys, b.Min[1], b.Max[1], "ay")}
+			var p orb.Pointer
+			if useVal {
+				p = valPt{ID: id, P: pt, Tags: []string{"t"}}
+			} else {
+				p = &qt.Pt{ID: id, P: pt}
+			}
+			var err error
+			if t.Guard("Add", func() { err = tr.Add(p) }) {
+				return
+			}
+			t.Logf("Add #%d %v -> %v", id, pt, err)
+			if err != nil {
+				t.Violate("add", "Add", "", "Add(%v) inside the closed bound %v failed: %v", pt, b, err)
+				return
+			}
+			live = append(live, ent{p, pt, id})
+			id++
+			t.Op()
+			checkContents("Add")
+		case 1: // remove by point (default matcher) - the only removal that works for value pointers
+			if len(live) == 0 {
+				return
+			}
+			v := live[s.Intn(len(live), "victim")]
+			var ok bool
+			if t.Guard("Remove", func() { ok = tr.Remove(v.p, nil) }) {
+				return
+			}
+			t.Logf("Remove by point %v -> %v", v.pt, ok)
+			if !ok {
+				t.Violate("remove-report", "Remove", "", "Remove by point %v returned false although #%d is stored there (bound %v)", v.pt, v.id, b)
+				return
+			}
+			// which of the pointers at that point went is the tree's choice
+			var got []orb.Pointer
+			if t.Guard("InBound", func() { got = tr.InBound(nil, orb.Bound{Min: v.pt, Max: v.pt}) }) {
+				return
+			}
+			left := map[int]bool{}
+			for _, p := range got {
+				left[idOf(p)] = true
+			}
+			removed := -1
+			for i, e := range live {
+				if e.pt == v.pt && !left[e.id] {
+					removed = i
+					break
+				}
+			}
+			if removed < 0 {
+				t.Violate("remove-one", "Remove", "", "Remove by point %v reported a match but every pointer stored there is still reported", v.pt)
+				return
+			}
+			live = append(live[:removed], live[removed+1:]...)
+			t.Op()
+			checkContents("Remove")
+		case 2: // bound search: pure comparisons
+			a := orb.Point{coord(xs, b.Min[0], b.Max[0], "bx"), coord(ys, b.Min[1], b.Max[1], "by")}
+			c := a
+			if !s.Chance(1, 3, "pointbox") {
+				c = orb.Point{coord(xs, b.Min[0], b.Max[0], "cx"), coord(ys, b.Min[1], b.Max[1], "cy")}
+			}
+			q := orb.Bound{Min: orb.Point{math.Min(a[0], c[0]), math.Min(a[1], c[1])}, Max: orb.Point{math.Max(a[0], c[0]), math.Max(a[1], c[1])}}
+			var got []orb.Pointer
+			if t.Guard("InBound", func() { got = tr.InBound(nil, q) }) {
+				return
+			}
+			want := map[int]int{}
+			n := 0
+			for _, e := range live {
+				if inBox(e.pt, q) {
+					want[e.id]++
+					n++
+				}
+			}
+			t.Logf("InBound %v..%v -> %d pointers (want %d)", q.Min, q.Max, len(got), n)
+			for _, p := range got {
+				want[idOf(p)]--
+			}
+			for _, e := range live {
+				if want[e.id] != 0 {
+					t.Violate("inbound", "InBound", "", "InBound(%v..%v) on bound %v returned %d pointers, %d stored pointers lie in the closed box; pointer #%d at %v is off by %d", q.Min, q.Max, b, len(got), n, e.id, e.pt, want[e.id])
+					return
+				}
+			}
+			if len(got) != n {
+				t.Violate("inbound", "InBound", "", "InBound(%v..%v) returned %d pointers, want %d", q.Min, q.Max, len(got), n)
+				return
+			}
+			t.Op()
+		case 3: // k-nearest: count, membership, distinctness (no distance claims)
+			k := 1 + s.Intn(6, "k")
+			p := orb.Point{coord(xs, b.Min[0], b.Max[0], "qx"), coord(ys, b.Min[1], b.Max[1], "qy")}
+			var got []orb.Pointer
+			if t.Guard("KNearest", func() { got = tr.KNearest(nil, p, k) }) {
+				return
+			}
+			want := k
+			if len(live) < k {
+				want = len(live)
+			}
+			t.Logf("KNearest(%v,%d) -> %d pointers", p, k, len(got))
+			seen := map[int]bool{}
+			stored := map[int]bool{}
+			for _, e := range live {
+				stored[e.id] = true
+			}
+			for _, x := range got {
+				if !stored[idOf(x)] || seen[idOf(x)] {
+					t.Violate("knearest", "KNearest", "", "KNearest(%v,%d) returned %v which is not stored or was returned twice", p, k, x)
+					return
+				}
+				seen[idOf(x)] = true
+			}
+			if len(got) != want {
+				t.Violate("knearest", "KNearest", "", "KNearest(%v,%d) returned %d pointers with %d stored", p, k, len(got), len(live))
+				return
+			}
+			t.Op()
+		default: // find: a stored pointer iff the tree is not empty
+			p := orb.Point{coord(xs, b.Min[0], b.Max[0], "qx"), coord(ys, b.Min[1], b.Max[1], "qy")}
+			var got orb.Pointer
+			if t.Guard("Find", func() { got = tr.Find(p) }) {
+				return
+			}
+			if (got == nil) != (len(live) == 0) {
+				t.Violate("nearest", "Find", "", "Find(%v) returned %v with %d pointers stored", p, got, len(live))
+				return
+			}
+			t.Op()
+		}
+	})
+	t.State(fmt.Sprintf("floaty/%v/%d", useVal, len(live)/4))
 }
